@@ -227,15 +227,14 @@ fn part_b(rep: &Report, tier: Tier) {
                 let calls = rec_tx.take();
                 acc.compared += 1;
                 let want_total = (2 + on_wire.len() + p) as u16;
-                if calls.len() != 1 {
-                    rep.violation("C12|wiring|sender-call-count", rank, || (format!("encap of a first fragment called the CRC calculator {} times", calls.len()), wit()));
-                } else {
-                    let c = &calls[0];
-                    if c.pdu != pd || c.pt != pt || c.total != want_total || c.label != on_wire {
-                        rep.violation(&format!("C12|wiring|sender-args|{}|{}", if matches!(lk, Lk::Plain(_)) { "plain" } else { "reuse" }, if via_ext { "encap_ext" } else { "encap" }), rank, || (format!("encap passed (pdu {} bytes, pt {:#06x}, total_len {}, label {}) to the CRC calculator; expected (whole PDU {} bytes, pt {:#06x}, total_len {} = 2 + label as written + PDU, label as written {})", c.pdu.len(), c.pt, c.total, hex(&c.label), p, pt, want_total, hex(&on_wire)), wit()));
-                    }
-                    if c.ret != ctx.crc {
-                        rep.violation("C12|wiring|context-crc", rank, || ("the context CRC is not the calculator's return value".into(), wit()));
+                // the call whose result became the context CRC must have had the right arguments
+                // (the number of calls is not constrained by the property)
+                match calls.iter().find(|c| c.ret == ctx.crc) {
+                    None => rep.violation("C12|wiring|context-crc", rank, || (format!("the context CRC {:#010x} is not the value returned by any call of the CRC calculator ({} calls)", ctx.crc, calls.len()), wit())),
+                    Some(c) => {
+                        if c.pdu != pd || c.pt != pt || c.total != want_total || c.label != on_wire {
+                            rep.violation(&format!("C12|wiring|sender-args|{}|{}", if matches!(lk, Lk::Plain(_)) { "plain" } else { "reuse" }, if via_ext { "encap_ext" } else { "encap" }), rank, || (format!("encap passed (pdu {} bytes, pt {:#06x}, total_len {}, label {}) to the CRC calculator; expected (whole PDU {} bytes, pt {:#06x}, total_len {} = 2 + label as written + PDU, label as written {})", c.pdu.len(), c.pt, c.total, hex(&c.label), p, pt, want_total, hex(&on_wire)), wit()));
+                        }
                     }
                 }
                 let _ = wire_label;
@@ -276,13 +275,10 @@ fn part_b(rep: &Report, tier: Tier) {
                     }
                     let rc = rec_rx.take();
                     acc.compared += 1;
-                    if rc.len() != 1 {
-                        rep.violation("C12|wiring|receiver-call-count", rank, || (format!("decap of the train called the CRC calculator {} times (outcome {})", rc.len(), d.brief()), wit()));
-                    } else {
-                        let c = &rc[0];
-                        if c.pdu != pd || c.pt != pt || c.total != want_total || c.label != on_wire {
-                            rep.violation(&format!("C12|wiring|receiver-args|{}", if matches!(lk, Lk::Plain(_)) { "plain" } else { "reuse" }), rank, || (format!("decap recomputed the CRC over (pdu {} bytes, pt {:#06x}, total_len {}, label {}); expected (PDU {} bytes, pt {:#06x}, total_len {}, label as written {})", c.pdu.len(), c.pt, c.total, hex(&c.label), p, pt, want_total, hex(&on_wire)), wit()));
-                        }
+                    // the receiver must recompute over the same four arguments (at least once)
+                    if !rc.iter().any(|c| c.pdu == pd && c.pt == pt && c.total == want_total && c.label == on_wire) {
+                        let seen: Vec<String> = rc.iter().map(|c| format!("(pdu {} bytes, pt {:#06x}, total_len {}, label {})", c.pdu.len(), c.pt, c.total, hex(&c.label))).collect();
+                        rep.violation(&format!("C12|wiring|receiver-args|{}", if matches!(lk, Lk::Plain(_)) { "plain" } else { "reuse" }), rank, || (format!("decap never recomputed the CRC over (PDU {} bytes, pt {:#06x}, total_len {}, label as written {}); calls seen: {:?}; outcome {}", p, pt, want_total, hex(&on_wire), seen, d.brief()), wit()));
                     }
                     match &d {
                         DecapOut::Completed { meta, .. } if meta.label == intended => acc.outcome("B:delivered"),
